@@ -456,9 +456,19 @@ fn observe<P: Props>(r: template::Render<P>, nparts: usize, fail_at: Option<usiz
         use emit::value::ToValue;
         r.to_value().to_string()
     };
+    // (6) the structured-serialisation paths of the rendering (`sval::Value`, `serde::Serialize`): the rendered text as
+    // one string — the same JSON token as the text itself gives
+    let via_sval = sval_json::stream_to_string(&r).ok();
+    let want_sval = sval_json::stream_to_string(s.as_str()).ok();
+    let via_serde = serde_json::to_string(&r).ok();
+    let want_serde = serde_json::to_string(s.as_str()).ok();
     let mut fail = None;
     if sr.is_err() {
         fail = Some("string-writer-failed".to_string());
+    } else if via_sval != want_sval {
+        fail = Some(format!("sval-stream-differs-from-string-writer({})", hcommon::hex(via_sval.unwrap_or_default().as_bytes())));
+    } else if via_serde != want_serde {
+        fail = Some(format!("serde-differs-from-string-writer({})", hcommon::hex(via_serde.unwrap_or_default().as_bytes())));
     } else if v != s {
         fail = Some(format!("to_value-differs-from-string-writer({})", hcommon::hex(v.as_bytes())));
     } else if d != s {
